@@ -9,6 +9,7 @@ CONSTANTS
   MaxTime = 10
   MaxDup = 0
   SubmitUntil = 1
+  OneDeepMemory = FALSE
 INVARIANTS NstartBoundI OneOutcomeI NeverLateI OneNackI CountBoundI ConcludeOnceI HeldFifoI
 CONSTRAINT NotBrokenI
 CHECK_DEADLOCK FALSE
